@@ -147,7 +147,7 @@ WFClass(i) == LET c == cls[i] IN
   /\ \A b \in Bases(i) : VBases(b) = {}
   \* = default on a member that would be deleted, declared inaccessible, etc. is legal; but a
   \* defaulted destructor that is deleted while virtual in a base is ill-formed
-  /\ (c.dt = "default" /\ (\E b \in Bases(i) : cls[b].dtvirt) => ~ImplDtDeleted(i))
+  /\ (c.dt = "default" /\ (\E b \in Bases(i) : VirtDtor(b)) => ~ImplDtDeleted(i))
   \* a user-provided destructor must be able to destroy every base and member
   /\ (c.dt = "user" => ~ImplDtDeleted(i))
 
